@@ -363,9 +363,13 @@ void mmd_export_image_html(DString * out, const char * source, token * text, lin
 	}
 
 	if (text) {
+		// The alt text is plain text (markup stripped) -- escape it, since it sits inside an attribute
+		DString * alt = d_string_new("");
+		print_token_tree_raw(alt, source, text->child);
 		print_const(" alt=\"");
-		print_token_tree_raw(out, source, text->child);
+		mmd_print_string_html(out, alt->str, false, false);
 		print_const("\"");
+		d_string_free(alt, true);
 	}
 
 	if (link->label && !(scratch->extensions & EXT_COMPATIBILITY)) {
